@@ -241,26 +241,34 @@ def run(ctx, replay):
         ctx.cov["evaluations"] += 1
         return
     quick = ctx.quick()
-    # ---- S
-    ctx.tlc_check("HTTPProto", "HTTPProto.cfg", coverage=not quick)
-    ctx.tlc_check("HTTPProto", "HTTPProto.cfg", overrides={"Deviations": '{"LongPollGuardInverted"}'},
-                  expect_violation="LongPollImmediate")
-    if not quick:
-        ctx.tlc_check("HTTPProto", "HTTPProto.cfg", overrides={"Blobs": "{2, 4, 6, 8}", "MaxCursor": 9, "MaxStat": 3}, workers=12, timeout=1800)
-    # ---- G: generate (exactly as C01)
     depth = 3
-    mut = ctx.tlc_gen("BlobStoreGen", "BlobStoreGen.cfg", overrides={"Depth": depth})
-    sim = ctx.tlc_gen("BlobStoreGen", "BlobStoreGen.cfg", overrides={"Mode": '"all"', "Depth": 40},
-                      simulate=(150 if quick else 1500), depth=42, seed=ctx.seed)
+    # ---- S and G-generation are independent TLC runs: run them side by side
+    ctx.specs()         # (the lazy copy is not thread-safe)
+    pre = ThreadPoolExecutor(max_workers=6)
+    f_s1 = pre.submit(ctx.tlc_check, "HTTPProto", "HTTPProto.cfg", None, 4, 900, None, not quick)
+    f_s2 = pre.submit(ctx.tlc_check, "HTTPProto", "HTTPProto.cfg", {"Deviations": '{"LongPollGuardInverted"}'}, 2, 900,
+                      "LongPollImmediate")
+    f_mut = pre.submit(ctx.tlc_gen, "BlobStoreGen", "BlobStoreGen.cfg", {"Depth": depth})
+    f_sim = pre.submit(ctx.tlc_gen, "BlobStoreGen", "BlobStoreGen.cfg", {"Mode": '"all"', "Depth": 40},
+                       (150 if quick else 1500), 42, ctx.seed)
+    f_s3 = f_mut4 = None
+    if not quick:
+        f_s3 = pre.submit(ctx.tlc_check, "HTTPProto", "HTTPProto.cfg", {"Blobs": "{2, 4, 6, 8}", "MaxCursor": 9, "MaxStat": 3}, 8, 1800)
+        f_mut4 = pre.submit(ctx.tlc_gen, "BlobStoreGen", "BlobStoreGen.cfg", {"Depth": 4})
+    mut, sim = f_mut.result(), f_sim.result()
+    f_s1.result()
+    f_s2.result()
     mutf, simf = ctx.path("mut.jsonl"), ctx.path("sim.jsonl")
     vlib.write_jsonl(mutf, mut)
     vlib.write_jsonl(simf, sim)
     hists = {"mut": mut, "sim": sim, "rnd": None, "extra": None, "big": None}
     if not quick:
-        mut4 = ctx.tlc_gen("BlobStoreGen", "BlobStoreGen.cfg", overrides={"Depth": 4})
+        f_s3.result()
+        mut4 = f_mut4.result()
         mut4f = ctx.path("mut4.jsonl")
         vlib.write_jsonl(mut4f, mut4)
         hists["mut4"] = mut4
+    pre.shutdown()
     ctx.sample({"mutator_history": mut[len(mut) // 2]})
     ctx.sample({"simulated_history_prefix": sim[0][:6]})
     R = Run(ctx, drv, hists)
@@ -268,7 +276,7 @@ def run(ctx, replay):
     def jobs_for(k, cfg):
         slow = cfg == ("diskpacked", "sqlite")      # one server per history there (no side-door removal)
         if quick:
-            ms, ss, rn = (64, 16, 6) if slow else (16, 4, 25)
+            ms, ss, rn = (96, 16, 6) if slow else (24, 4, 20)
         else:
             ms, ss, rn = (32, 32, 30) if slow else (2, 8, 150)
         jobs = {
@@ -285,7 +293,7 @@ def run(ctx, replay):
     def work(kc):
         k, cfg = kc
         return cfg, R.run_cfg(cfg, jobs_for(k, cfg), ctx.seed, "main")
-    with ThreadPoolExecutor(max_workers=8) as ex:
+    with ThreadPoolExecutor(max_workers=10) as ex:
         for cfg, (h, e) in ex.map(work, list(enumerate(CFGS))):
             R.total_h += h
             R.total_e += e
